@@ -176,10 +176,16 @@ def opSimple (j : Json) : Json :=
 def opPPFilter (j : Json) : Json :=
   let fname := strToStr (getStr j "fname")
   let lines := (jsonStrs (getArr j "lines")).map strToStr
-  let out := match getStr j "kind" with
-    | "gcc" => gccFilter fname true lines
-    | _ => pcppFilter fname true lines
-  Json.mkObj [("out", Json.arr (out.map jstr).toArray)]
+  match getStr j "kind" with
+  | "msvc" =>
+    match msvcFilter lines with
+    | some out => Json.mkObj [("out", Json.arr (out.map jstr).toArray)]
+    | none => Json.mkObj [("assert", Json.bool true)]
+  | kind =>
+    let out := match kind with
+      | "gcc" => gccFilter fname true lines
+      | _ => pcppFilter fname true lines
+    Json.mkObj [("out", Json.arr (out.map jstr).toArray)]
 
 /-- decode the harness's tagged JSON into a `PyVal` (fuel bounds the depth) -/
 def toPyVal : Nat → Json → PyVal
